@@ -315,7 +315,7 @@ class GroupGoGen(RingGoGen):
         return super().call(name, args, old)
 
 
-def generator_for(prog, t, pkgname, length_of, many_elems=False):
+def generator_for(prog, t, pkgname, length_of, many_elems=False, wide_ints=False):
     """Go expression producing a pseudo-random value of parameter type t (None: not supported)"""
     k = prog.kind(t)
     if k == "ptr":
@@ -330,6 +330,9 @@ def generator_for(prog, t, pkgname, length_of, many_elems=False):
         if prog.kind(et) == "array" and prog.int_info(prog.elem(et)) == (8, False):
             n = prog.array_len(et)
             return "(*[%d]byte)(gArr(rng, %d))" % (n, n)
+        if prog.kind(et) == "array" and prog.int_info(prog.elem(et)) == (64, False):
+            n = prog.array_len(et)
+            return "(*%s)(gWords(rng, %d))" % (go_type(prog, et, MAIN if pkgname == "edwards25519" else FIELD), n)
         return None
     if k == "slice" and prog.int_info(prog.elem(t)) == (8, False):
         return "gBytesN(rng, %s)" % length_of
@@ -341,15 +344,20 @@ def generator_for(prog, t, pkgname, length_of, many_elems=False):
             return "gPoints(rng, %s)" % length_of
     ii = prog.int_info(t)
     if ii:
+        if ii[0] == 64 and not ii[1] and wide_ints:
+            return "%s(gU64(rng))" % go_type(prog, t, "")
         return "%s(rng.Intn(2))" % go_type(prog, t, "")
+    if k == "ptr" and prog.kind(prog.elem(t)) == "array" and prog.int_info(prog.elem(prog.elem(t))) == (64, False):
+        n = prog.array_len(prog.elem(t))
+        return "(*%s)(gWords(rng, %d))" % (go_type(prog, prog.elem(t), MAIN if pkgname == "edwards25519" else FIELD), n)
     return None
 
 
-def sampled_replay(repo, ob, trials=400):
+def sampled_replay(repo, ob, trials=400, all_modes=False):
     """returns dict(label -> description of the failing input) for the ensures clauses falsified on the real code,
     plus '__frame__' / '__panic__' entries; {} if nothing was reproduced; None if the function cannot be sampled"""
     run = getattr(ob, "run", None)
-    if run is None or run.mode not in ("ring", "group") or run.c.variant or run.f.get("lemma"):
+    if run is None or (run.mode not in ("ring", "group") and not all_modes) or run.c.variant or run.f.get("lemma"):
         return None
     prog, f, c = run.prog, run.f, run.c
     if not f.get("hasBody") or "$" in f["short"]:
@@ -375,7 +383,7 @@ def sampled_replay(repo, ob, trials=400):
     # alias classes of the partition under which the obligation failed
     alias = {}
     if ob.part and ob.part not in ("distinct", "static", "flow", "ground"):
-        for grp in ob.part.split(","):
+        for grp in ob.part.split("|"):
             names_ = grp.split("=")
             for n in names_[1:]:
                 alias[n] = names_[0]
@@ -403,8 +411,14 @@ def sampled_replay(repo, ob, trials=400):
             k = prog.kind(t)
             names.append(gv)
             if nm in alias and alias[nm] in env:
-                setup.append("%s := %s" % (gv, env[alias[nm]][1]))
-                env[nm] = (env[alias[nm]][0], gv, env[alias[nm]][2], env[alias[nm]][3])
+                if k == "ptr":
+                    # same object under the parameter's own (possibly differently named) pointer type
+                    setup.append("%s := (%s)(%s)" % (gv, go_type(prog, t, pkg), env[alias[nm]][1]))
+                    setup.append("old_%s := *%s" % (gv, gv))
+                    env[nm] = ("ptr", gv, prog.elem(t), "old_" + gv)
+                else:
+                    setup.append("%s := %s" % (gv, env[alias[nm]][1]))
+                    env[nm] = (env[alias[nm]][0], gv, env[alias[nm]][2], env[alias[nm]][3])
                 continue
             ln = "32"
             v = run.param_vals.get(p["name"])
@@ -413,7 +427,7 @@ def sampled_replay(repo, ob, trials=400):
             elif k == "slice" and v is not None:
                 cl = run.dom.concrete(v.len)
                 ln = str(cl) if cl is not None else "[]int{0, 31, 32, 32, 32, 33, 64}[rng.Intn(7)]"
-            g = generator_for(prog, t, pkgname, ln, many)
+            g = generator_for(prog, t, pkgname, ln, many, wide_ints=run.mode in ("lia", "bv"))
             if g is None:
                 return None
             setup.append("%s := %s" % (gv, g))
@@ -429,6 +443,13 @@ def sampled_replay(repo, ob, trials=400):
                 env[nm] = ("slice", gv, t, "old_" + gv)
             else:
                 env[nm] = ("int", gv, t, None)
+        # element-alias partitions (v=points[j]): the receiver is also the j-th element of the slice
+        for an, tgt in alias.items():
+            m_ = re.match(r"^(\w+)\[(\d+)\]$", an)
+            if m_ and m_.group(1) in env and tgt in env and env[m_.group(1)][0] == "slice":
+                sl_ = env[m_.group(1)]
+                j_ = int(m_.group(2))
+                setup.append("if %d < len(%s) { %s[%d] = %s; %s = clonePoints(%s) }" % (j_, sl_[1], sl_[1], j_, env[tgt][1], sl_[3], sl_[1]))
         nres = len(f["results"])
         resvars = ["r%d" % i for i in range(nres)]
         for i, rt in enumerate(f["results"]):
@@ -482,7 +503,14 @@ def sampled_replay(repo, ob, trials=400):
             if kind == "ptr":
                 frame.append(("frame *%s" % nm, "reflect.DeepEqual(*%s, %s)" % (env[nm][1], env[nm][3])))
             elif kind == "slice":
-                frame.append(("frame %s[...]" % nm, "reflect.DeepEqual(%s, %s)" % (env[nm][1], env[nm][3])))
+                skipidx = [int(re.match(r"^\w+\[(\d+)\]$", an).group(1)) for an, tgt in alias.items()
+                           if re.match(r"^%s\[\d+\]$" % re.escape(nm), an) and tgt in assigned]
+                if skipidx:
+                    # elements that are the (assigned) receiver itself are allowed to change
+                    cond = " && ".join("i != %d" % j for j in skipidx)
+                    frame.append(("frame %s[...]" % nm, "func() bool { for i := range %s { if %s && !reflect.DeepEqual(%s[i], %s[i]) { return false } }; return true }()" % (env[nm][1], cond, env[nm][1], env[nm][3])))
+                else:
+                    frame.append(("frame %s[...]" % nm, "reflect.DeepEqual(%s, %s)" % (env[nm][1], env[nm][3])))
         if f["recv"]:
             call = "%s.%s(%s)" % (names[0], f["short"], ", ".join(names[1:]))
         else:
@@ -551,6 +579,8 @@ def sampled_replay(repo, ob, trials=400):
            "var _ = field.GovcLimbs" if pkgname == "edwards25519" else "var _ = GovcLimbs",
            HELPERS, RING_HELPERS, GEN_MAIN if pkgname == "edwards25519" else GEN_FIELD,
            "func gArr(r *rand.Rand, n int) []byte { b := make([]byte, n); r.Read(b); return b }",
+           "func gU64(r *rand.Rand) uint64 { switch r.Intn(6) { case 0: return 0; case 1: return 1; case 2: return ^uint64(0); case 3: return r.Uint64() >> uint(r.Intn(64)) }; return r.Uint64() }",
+           "func gWords(r *rand.Rand, n int) []uint64 { w := make([]uint64, n); for i := range w { w[i] = gU64(r) }; if n > 0 && r.Intn(4) != 0 { w[n-1] >>= 4 + uint(r.Intn(8)) }; return w }",
            "func gBytesN(r *rand.Rand, n int) []byte { " + ("return gBytes(r, n)" if pkgname == "edwards25519" else "b := make([]byte, n); r.Read(b); if n == 32 && r.Intn(2) == 0 { b[31] &= 127 }; return b") + " }",
            ""] + trial_src
     if run.mode == "group":
